@@ -1,5 +1,6 @@
 import SlugModel.Base.Path
 import SlugModel.Ignore
+import SlugModel.FS
 /-!
 # GoLib — the Go operations the translated definitions (Generated/Trans.lean) are written over
 
@@ -53,6 +54,56 @@ def pathAbs (cwd s : Str) : Str × Bool := (Slug.pathAbs cwd s, false)
 regexp engine rejects) is not modelled: rule files with patterns outside the modelled fragment are
 skipped by the lanes, see Ignore.lean. -/
 def ruleMatch (r : Rule) (path : Str) : Bool × Bool := (ruleMatches r path, false)
+
+/-! ### pieces used by the translation of `NewUnpackInfo` -/
+
+/-- `s[i]` (a byte; the translated code compares it with ASCII characters only).  Out of range the Go
+expression panics; here it is a character that equals none of those it is compared with. -/
+def byteAt (s : Str) (i : Int) : Char := if i < 0 then Char.ofNat 0 else (s[i.toNat]?).getD (Char.ofNat 0)
+/-- `xs[i]` for a `[]string` -/
+def listAt (xs : List Str) (i : Int) : Str := if i < 0 then [] else (xs[i.toNat]?).getD []
+def lenList (xs : List Str) : Int := xs.length
+/-- the values `0, 1, …, n-1` of a loop `for i := 0; i < n; i++` -/
+def range0 (n : Int) : List Int := (List.range n.toNat).map (fun (k : Nat) => Int.ofNat k)
+/-- `strings.Split(s, sep)` for a one-character separator -/
+def split (s sep : Str) : List Str :=
+  match sep with
+  | [c] => splitOn c s
+  | _ => [s]
+/-- `filepath.Rel` -/
+def pathRel (base targ : Str) : Str × Bool :=
+  match Slug.pathRel base targ with
+  | some r => (r, false)
+  | none => ([], true)
+
+/-- an error of the `os` package as far as the translated code distinguishes: nil, "does not exist", other -/
+inductive OsErr
+  | nil | notExist | other
+  deriving DecidableEq, Repr
+def nonNil : OsErr → Bool
+  | .nil => false
+  | _ => true
+def isNotExist : OsErr → Bool
+  | .notExist => true
+  | _ => false
+/-- `os.FileInfo` as far as the translated code looks at it: is the mode a symlink's? -/
+structure FileInfo where
+  symlink : Bool
+  deriving DecidableEq, Repr
+def isSymlinkMode (fi : FileInfo) : Bool := fi.symlink
+/-- `os.Lstat` over the filesystem model -/
+def lstat (fs : FS) (path : Str) : FileInfo × OsErr :=
+  match fs.lstat path with
+  | .ok (.link _) => (⟨true⟩, .nil)
+  | .ok _ => (⟨false⟩, .nil)
+  | .error .enoent => (⟨false⟩, .notExist)
+  | .error _ => (⟨false⟩, .other)
+/-- `unpackinfo.UnpackInfo` as far as the translated code builds it (the time and mode fields are copied
+from the header and not looked at again before `RestoreInfo`) -/
+structure UnpackInfo where
+  path : Str
+  typeflag : Char
+  deriving DecidableEq, Repr
 
 theorem index_some {p s : Str} {i : Nat} (h : indexOf p s = some i) : index s p = (i : Int) := by
   simp [index, h]
